@@ -206,7 +206,7 @@ fn layout_case<T: Clone + PartialEq + Debug>(make: &dyn Fn(u32) -> T, cols: usiz
 
 macro_rules! layout_type {
     ($rep:expr, $opts:expr, $idx:expr, $rng:expr, $name:expr, $glue:expr, $make:expr) => {{
-        let cols = $rng.range(1, 5);
+        let cols = $rng.range(1, 5); // (zero columns are refused by an assertion of the vector)
         let cap = *$rng.pick(&[0u32, 1, 31, 32, 33, 100]);
         // beyond the first bucket (32) and sometimes beyond the second (96)
         let n = *$rng.pick(&[2u32, 5, 33, 40, 70, 101]);
